@@ -72,7 +72,8 @@ fn check_multi(prop: &str, tier: Tier, seed: u64, jobs: usize, parts: &[(&str, u
             level_note: String::new(),
             write_evidence: false,
             extra: None,
-            max_wall_s: if tier == Tier::Quick { 90 } else { 1500 },
+            // (VERIF_MAX_WALL: per-engine wall-clock cap for background sweeps)
+            max_wall_s: std::env::var("VERIF_MAX_WALL").ok().and_then(|s| s.parse().ok()).unwrap_or(if tier == Tier::Quick { 90 } else { 1500 }),
         };
         let (code, ev) = run_engine(name, &ba);
         if code == 1 {
